@@ -188,8 +188,11 @@ var iostats ioStats
 func runIOCase(c *IOCase) *RunReport {
 	rep := &RunReport{}
 	zzverifrt.Hook = simrt.Yield
+	progressPhase(1)
 	ref := computeRef(c.Expr, c.Text)
+	progressPhase(2)
 	res := runJpgo(c)
+	progressPhase(3)
 	w := res.world
 	iostats.cases++
 	iostats.bytes += uint64(len(c.Text))
@@ -617,6 +620,7 @@ func ioWorker(tier string, master uint64, from, to int, maxWall time.Duration, r
 			break
 		}
 		r := &gen.Rng{S: simrt.Mix(master^0xc19, uint64(idx))}
+		progressRun(idx)
 		expr, text := genIOWorkload(r)
 		if full && idx%3 == 0 && len(text) > 64 {
 			// the thorough tier enumerates all fault positions on short inputs
